@@ -79,7 +79,7 @@ def readGlyphData (color : Bool) : List Nat → Res (List Nat)
   | [] => .err                                   -- DataOverflow
   | [c] =>
     if c = 0 then .ok []
-    else if color && c != 13 then .panic         -- `bytes[char_offset]` out of range
+    else if color && c != 13 then .err           -- attribute byte beyond the end: DataOverflow
     else consOk c .err
   | c :: a :: rest =>
     if c = 0 then .ok []
@@ -96,7 +96,7 @@ def readGlyph (color : Bool) (blockSize : Nat) (blk : List Nat) (off : Nat) : Re
        | .ok d => .ok (some { w := w, h := h, data := d })
        | .err => .err
        | .panic => .panic)
-    | _ => .panic
+    | _ => .err                                     -- `char_offset + 2 > bytes.len()`: DataOverflow
 
 def readGlyphs (color : Bool) (blockSize : Nat) (blk : List Nat) : List Nat → Res (List (Option TGlyph))
   | [] => .ok []
@@ -120,6 +120,7 @@ def nameBytes : Nat → List Nat → Option (List Nat)
 
 /-- one font record starting at the indicator; returns the font and the input after its data block -/
 def readFont (rem : List Nat) : Res (TdfFont × List Nat) :=
+  if rem.length < 213 then .err else                 -- every record starts with a 213-byte header: FileTooShort
   match rem with
   | i0 :: i1 :: i2 :: i3 :: rest =>
     if [i0, i1, i2, i3] ≠ indicator then .err      -- FontIndicatorMismatch
